@@ -76,7 +76,7 @@ theorem c07_depack_source_facts :
     IpcHub.Gen.demuxProcessConds = ["if r != nil", "for !demuxer.closed", "if p == nil", "if !demuxer.closed", "switch packet.Channel", "case ChannelVideo", "case ChannelVideoControl", "case ChannelAudio", "case ChannelAudioControl", "if err != nil"] ∧
     IpcHub.Gen.aacEntry = "aacdp.depacketizeFor2ByteAUHeader(packet)" ∧
     IpcHub.Gen.h264StapaHeaderAssigns = [] ∧
-    IpcHub.Gen.h264FuAHeaderAssigns = ["frame.Payload[0] = (header & 0x60) | (fuHeader & 0x1F)"] ∧
+    IpcHub.Gen.h264FuAHeaderAssigns = ["frame.Payload[0] = (header & 0xE0) | (fuHeader & 0x1F)"] ∧
     IpcHub.Gen.h265StapHeaderAssigns = [] ∧
     IpcHub.Gen.h265FuHeaderAssigns = ["frame.Payload[0] = (payload[0] & 0x81) | (fuHeader&0x3f)<<1", "frame.Payload[1] = payload[1]"] ∧
     IpcHub.Gen.h264StapaOffsets = ["off := 1", "off += 2", "off += int(nalSize)"] ∧
@@ -91,6 +91,7 @@ theorem c07_depack_source_facts :
     IpcHub.Gen.stapaChecked = true ∧
     IpcHub.Gen.stapaRewritesNri = false ∧
     IpcHub.Gen.fuaNeedsStart = true ∧
+    IpcHub.Gen.fuaKeepsF = true ∧
     IpcHub.Gen.apChecked = true ∧
     IpcHub.Gen.aacChecked = true ∧
     IpcHub.Gen.srChecked = true ∧
@@ -183,7 +184,7 @@ theorem c07_pipeline_survives (spsOk : Bytes → Bool) (ascOk hasTs : Bool) (s :
   step_alive _ c07_gen_cfg_safe.1 _ c07_gen_cfg_safe.2.2.2.1 c07_gen_cfg_safe.2.2.2.2.1 spsOk ascOk hasTs s i
 
 theorem c07_round_cfg : RoundCfg Depack.genCfg := by
-  refine ⟨?_, ?_, ?_, ?_, ?_⟩ <;> decide
+  refine ⟨?_, ?_, ?_, ?_, ?_, ?_⟩ <;> decide
 
 /-- C07 (recovery).  Take ANY ready depacketizer state, feed it ANY list of video packets
     `bad` with arbitrary payload bytes, sequence numbers and timestamps (truncated or oversized
@@ -192,7 +193,7 @@ theorem c07_round_cfg : RoundCfg Depack.genCfg := by
     C06) the frames handed on are exactly its units — nothing lost, nothing spliced with the
     garbage, same clock base.  H.264 (`_partial` only for the filler exclusion of C06) and H.265. -/
 theorem c07_recovers_h264_partial (spsOk : Bytes → Bool) (st : VSt) (bad : List Pkt) (items : List Item) (seq0 : UInt16)
-    (hr : st.ready = true) (hl : ∀ it ∈ items, legal264 it = true ∧ itemNoFiller it = true) :
+    (hr : st.ready = true) (hl : ∀ it ∈ items, legal264F it = true ∧ itemNoFiller it = true) :
     let st1 := (vRun Depack.genCfg spsOk .h264 st bad).1
     (vRun Depack.genCfg spsOk .h264 st bad).2.2 ≠ .panic ∧
     (vRun Depack.genCfg spsOk .h264 st1 (packets264 seq0 items)).2 = ((units items).map (frameOf st.base), .ok) := by
@@ -240,7 +241,7 @@ theorem c07_recovers_h265 (spsOk : Bytes → Bool) (st : VSt) (bad : List Pkt) (
 example :
     let bad : List Pkt := [⟨5, 1, false, [0x7c, 0x85, 0xaa]⟩, ⟨9, 1, false, [0x78, 0x00, 0x09, 0x65]⟩, ⟨10, 1, false, []⟩]
     let items : List Item := [.frag 3000 true [0x41, 1, 2, 3] [1, 1]]
-    (∀ it ∈ items, legal264 it = true ∧ itemNoFiller it = true) ∧
+    (∀ it ∈ items, legal264F it = true ∧ itemNoFiller it = true) ∧
     (vRun Depack.genCfg (fun _ => true) .h264 { ready := true } bad).1.frags.length = 1 := by
   decide
 
